@@ -223,7 +223,7 @@ def body_irrep(case, ctx):
     v = np.array(case["v"], dtype=float)
     sc = max(1.0, O.norm2(A)) ** (n - 1) * max(1.0, float(np.linalg.norm(v))) ** (n - 1) * 2 ** n
     ctx.close("sl2_irrep(A) nu(v) = nu(A v) (action on degree n-1 polynomials)",
-              fa @ O.veronese(v, n), O.veronese(A @ v, n), rtol=0, atol=1e-9 if exact else 1e-10 * sc)
+              fa @ O.veronese(v, n), O.veronese(A @ v, n), rtol=0, atol=1e-9 * sc)
     ctx.close("sl2_irrep(A) vs the matrix determined by the Veronese map", fa,
               sl2_irrep_oracle(A, n), rtol=0, atol=1e-9 * sc * 4 ** n)
     dA = np.linalg.det(A)
